@@ -74,6 +74,10 @@ class Model:
 			return 'ValueError'
 		if bd.inst is not None:
 			return None
+		if bd.fid.startswith('BROKEN:'):
+			# a by-name definition whose target cannot be imported: every attempt repeats the import error, nothing changes
+			self.probe('resolve of a by-name definition that fails to import')
+			return bd.fid[7:]
 		if bd.fid.startswith('LOC:'):
 			bd.inst = ('di', int(bd.fid[4:]))
 			bd.materialised = True
@@ -180,6 +184,13 @@ class _Skip(Exception):
 	pass
 
 
+# by-name definitions whose materialisation fails: dotted path -> the error every resolve must repeat
+BROKEN = {
+	'@missing-module': ('tranpsim.no_such_module.factory', 'ModuleNotFoundError'),
+	'@missing-attr': ('tranpsim.di_universe.no_such_factory', 'AttributeError'),
+}
+
+
 class DISim:
 	def __init__(self, case: dict[str, Any]) -> None:
 		from rogw.tranp.lang.di import DI, LazyDI
@@ -230,14 +241,19 @@ class DISim:
 			definitions: dict[str, Any] = {}
 			for s, spec in defs.items():
 				fid, byname = spec['f'], spec.get('byname', False)
+				if fid in BROKEN:
+					definitions[u.SYMBOL_PATH[s]] = BROKEN[fid][0]
+					binds[s] = Binding('BROKEN:' + BROKEN[fid][1], m.newgen(), None, materialised=False)
+					continue
 				definitions[u.SYMBOL_PATH[s]] = u.DOTTED[fid] if byname and fid in u.DOTTED else u.FACTORIES[fid][0]
 				binds[s] = Binding(fid, m.newgen(), None, materialised=False)
 			di = self.LazyDI.instantiate(definitions)
 		else:
 			di = self.DI()
 			for s, spec in defs.items():
-				di.bind(u.SYMBOLS[s], u.FACTORIES[spec['f']][0])
-				binds[s] = Binding(spec['f'], m.newgen(), None)
+				fid = u.BINDABLE[s][0] if spec['f'] in BROKEN else spec['f']  # (by-name definitions exist in LazyDI only)
+				di.bind(u.SYMBOLS[s], u.FACTORIES[fid][0])
+				binds[s] = Binding(fid, m.newgen(), None)
 		# production shape (providers/app.py di_container): the container is its own Locator
 		di.bind(self.Locator, lambda: di)
 		binds['Locator'] = Binding(f'LOC:{uid}', m.newgen(), None)
@@ -506,6 +522,11 @@ class C19(Engine):
 			c([{'op': 'flaky', 'f': 'f_flaky', 'n': 1}, {'op': 'rebind', 'h': 0, 's': 'S1', 'f': 'f_flaky'}, R(0, 'S1'), R(0, 'S1'), R(0, 'S1')])
 			c([{'op': 'flaky', 'f': 'f_flaky2', 'n': 1}, {'op': 'bind', 'h': 0, 's': 'S2', 'f': 'f_flaky2'}, R(0, 'S2'), R(0, 'S0'), R(0, 'S2')])
 			c([{'op': 'bind', 'h': 0, 's': 'G0[int]', 'f': 'f_g0'}, R(0, 'G0'), R(0, 'G0[int]'), {'op': 'can', 'h': 0, 's': 'G0'}, {'op': 'bind', 'h': 0, 's': 'G0', 'f': 'f_g0'}, {'op': 'unbind', 'h': 0, 's': 'G0[int]'}, {'op': 'can', 'h': 0, 's': 'G0'}])
+			for broken in BROKEN:
+				# materialisation of a by-name definition fails: the definition stays, the error repeats, clone / combine carry it, rebind repairs it
+				c([R(0, 'S1'), R(0, 'S1'), {'op': 'can', 'h': 0, 's': 'S1'}, I('f_s3'), {'op': 'clone', 'h': 0, 'into': 1}, R(1, 'S1'), {'op': 'new', 'into': 2, 'defs': {'S0': {'f': 'f_s0'}}},
+					{'op': 'combine', 'l': 2, 'r': 0, 'into': 3}, R(3, 'S1'), {'op': 'can', 'h': 3, 's': 'S1'}, {'op': 'rebind', 'h': 0, 's': 'S1', 'f': 'f_s1'}, R(0, 'S1'), R(1, 'S1')],
+					init={'S0': {'f': 'S0'}, 'S1': {'f': broken, 'byname': True}})
 			c([{'op': 'bind', 'h': 0, 's': 'G0', 'f': 'f_g0'}, I('f_s5_mixed', 3), I('f_s5_mixed', 'x'), {'op': 'unbind', 'h': 0, 's': 'G0'}, I('f_s5_mixed', 3)])
 		return cases
 
@@ -516,12 +537,15 @@ class C19(Engine):
 		focus = rng.sample(syms, rng.randint(3, len(syms)))
 		w = {'bind': rng.uniform(0.5, 2), 'unbind': rng.uniform(0.2, 1.5), 'rebind': rng.uniform(0.3, 1.5), 'resolve': rng.uniform(2, 5), 'can': rng.uniform(0, 1),
 			'invoke': rng.uniform(0.5, 3), 'clone': rng.uniform(0.2, 1), 'combine': rng.uniform(0.2, 1.5), 'new': rng.uniform(0.1, 0.8), 'flaky': rng.choice([0, 0, 0.3, 0.8])}
+		broken_p = rng.choice([0, 0, 0.15, 0.4])
 		plain_focus = [x for x in focus if x not in u.ORIGIN and x in u.BINDABLE and '.' not in x]  # (nested classes cannot be registered by dotted name)
 
 		def defs() -> dict[str, Any]:
 			out = {}
 			for s in rng.sample(plain_focus, rng.randint(0, min(4, len(plain_focus)))):
 				out[s] = {'f': rng.choice(u.BINDABLE[s]), 'byname': rng.random() < 0.5}
+				if broken_p and rng.random() < broken_p:
+					out[s] = {'f': rng.choice(sorted(BROKEN)), 'byname': True}
 			return out
 
 		def fid_for(s: str) -> str:
